@@ -52,7 +52,7 @@ def unrat(s):
 # ------------------------------------------------------------------------------------------------------- generators
 
 def gen_quat(rng):
-    cls = rng.choice(['unit', 'scaled', 'near180', 'axis', 'random', 'smallangle'])
+    cls = rng.choice(['unit', 'scaled', 'near180', 'axis', 'random', 'smallangle', 'nearunit'])
     if cls == 'axis':
         q = rng.choice([[1, 0, 0, 0], [0, 1, 0, 0], [0, 0, 1, 0], [0, 0, 0, 1], [-1, 0, 0, 0],
                         [math.sqrt(0.5), math.sqrt(0.5), 0, 0], [math.sqrt(0.5), 0, -math.sqrt(0.5), 0],
@@ -71,6 +71,18 @@ def gen_quat(rng):
             q = [1.0, q[1] * eps, q[2] * eps, q[3] * eps]
             n = math.sqrt(sum(a * a for a in q))
             q = [a / n for a in q]
+        elif cls == 'nearunit':
+            # almost-unit quaternions as they occur in practice: read from 6-decimal text, rounded through float32,
+            # or carrying a relative norm error between 1e-13 and 1e-4 (any norm shortcut must still be a rotation)
+            how = rng.choice(['text6', 'float32', 'factor', 'factor'])
+            if how == 'text6':
+                q = [float('%.6f' % a) for a in q]
+            elif how == 'float32':
+                import struct
+                q = [struct.unpack('f', struct.pack('f', a))[0] for a in q]
+            else:
+                f = 1.0 + rng.choice([1, -1]) * 10.0 ** rng.uniform(-13, -4)
+                q = [a * f for a in q]
         elif cls == 'scaled':
             s = 10.0 ** rng.uniform(-3, 3) * rng.choice([1, -1])
             q = [a * s for a in q]
